@@ -186,7 +186,8 @@ def run(ctx: Ctx) -> None:
         "paragraph, giving the unconditional theorem mini_staged for that sub-parser (model tied by the `miniblock` "
         "differential runs), and for the container rule blockquote (Props/C03c.lean: loop_line_ge, loop_maps_final — stages end "
         "no later than the loop's final line, so the quote's patched map encloses its content — qChain_maps, q_staged; tie "
-        "`qblock`); for the other rules it is monitored on every real rule call; 'starts on a non-blank line', 'ends on a "
+        "`qblock`), and for the list rule (Props/C03d.lean: lChain_maps — the list's patched map encloses its items, items have "
+        "non-empty, increasing, adjacent ranges, an item's map encloses its nested run — l_staged; tie `lblock`); for the other rules it is monitored on every real rule call; 'starts on a non-blank line', 'ends on a "
         "non-blank line', inline content lines and coverage are decided by the oracle",
     ]
 
